@@ -287,12 +287,14 @@ def load_findings():
     return json.load(open(p))["findings"]
 
 
-def match_finding(findings, prop, fs, op, impl=None, klass=None):
+def match_finding(findings, prop, fs, op, impl=None, klass=None, profile=None):
     for f in findings:
         if f.get("status") != "open" or f["property"] != prop:
             continue
         m = f["match"]
         if "class" in m and m["class"] != klass:
+            continue
+        if "profile" in m and profile is not None and m["profile"] != profile:
             continue
         if "featureset" in m and not re.fullmatch(m["featureset"], fs):
             continue
